@@ -124,16 +124,23 @@ def run(ctx):
 
     # ---- A: design-level exhaustive check
     def stage_a():
-        cfg = "MCJournal_small.cfg" if quick else "MCJournal_big.cfg"
-        r = vlib.tlc_must_pass(ctx, "MCJournal", cfg, workers=8 if quick else 16, timeout=3000, heap=None if quick else "24g")
-        vlib.log("A  TLC %s: %d distinct / %d generated, depth %d, %.0fs" % (cfg, r.distinct, r.generated, r.depth, r.wall))
-        return {"states": r.distinct, "transitions": r.generated, "tlc_depth": r.depth, "tlc_cfg": cfg, "tlc_wall_s": round(r.wall, 1)}
+        out = {"states": 0, "transitions": 0, "tlc_cfg": [], "tlc_runs": {}}
+        for cfg in (["MCJournal_small.cfg"] if quick else ["MCJournal_big.cfg", "MCJournal_deep.cfg"]):
+            r = vlib.tlc_must_pass(ctx, "MCJournal", cfg, workers=8, timeout=5000)
+            vlib.log("A  TLC %s: %d distinct / %d generated, depth %d, %.0fs" % (cfg, r.distinct, r.generated, r.depth, r.wall))
+            out["states"] += r.distinct
+            out["transitions"] += r.generated
+            out["tlc_cfg"].append(cfg)
+            out["tlc_runs"][cfg] = {"distinct": r.distinct, "generated": r.generated, "depth": r.depth, "wall_s": round(r.wall, 1)}
+        return out
 
     # ---- B: journal-level behaviours on the real StateDB
     def stage_b():
         out = {}
         n_total = 0
-        for cfg, uni in ([("MCJournal_emit.cfg", "j1")] if quick else [("MCJournal_emit.cfg", "j1"), ("MCJournal_emit3.cfg", "j2")]):
+        # *nv = same bounds without VIEW: behaviours that differ only in what was reverted earlier stay distinct
+        for cfg, uni in ([("MCJournal_emit.cfg", "j1")] if quick else
+                         [("MCJournal_emit.cfg", "j1"), ("MCJournal_emitnv.cfg", "j1"), ("MCJournal_emit3.cfg", "j2")]):
             r = vlib.tlc_must_pass(ctx, "MCJournal", cfg, workers=4 if quick else 8, timeout=3000)
             beh = ctx.work / ("beh-%s.ndjson" % cfg[:-4])
             n = write_behaviours(r, beh)
@@ -156,7 +163,7 @@ def run(ctx):
     def stage_c():
         out = {}
         n_total, validated = 0, 0
-        cfgs = ["MCJournal_evm.cfg"] if quick else ["MCJournal_evm.cfg", "MCJournal_evm32.cfg", "MCJournal_evm3.cfg"]
+        cfgs = ["MCJournal_evm.cfg"] if quick else ["MCJournal_evm.cfg", "MCJournal_evmnv.cfg", "MCJournal_evm32.cfg", "MCJournal_evm3.cfg"]
         for cfg in cfgs:
             r = vlib.tlc_must_pass(ctx, "MCJournal", cfg, workers=4 if quick else 8, timeout=3000)
             beh = ctx.work / ("beh-%s.ndjson" % cfg[:-4])
@@ -248,7 +255,7 @@ def run(ctx):
         rule="TLC exhaustive on the journal model (%s); every bounded journal behaviour ending in a revert replayed on a real StateDB "
              "and every bounded frame program run by the real EVM with one observation per step, compared with the spec state and, at "
              "every revert / failed frame, with the projection captured before it; seeded TLC-simulated long programs and seeded random "
-             "StateDB call sequences validated by JournalTrace.tla" % a["tlc_cfg"])
+             "StateDB call sequences validated by JournalTrace.tla" % ", ".join(a["tlc_cfg"]))
     vlib.write_evidence(ctx, "model_checking", cov, ASSUMPTIONS)
 
 
